@@ -4724,14 +4724,20 @@ class ParseCtx:
         if len(char_const) == 3:
             return char_const[1]
         else:
-            return {
+            escapes = {
                 'n': '\n',
                 'r': '\r',
                 't': '\t',
                 'b': '\b',
                 '0': '\x00',
-                '\'': '\''
-            }.get(char_const[2], char_const[2])
+                '\'': '\'',
+                '"': '"',
+                '\\': '\\'
+            }
+            if char_const[2] not in escapes:
+                # (as in strings: the letter itself is not what any of these spell elsewhere)
+                raise IllegalParseTree("Unknown escape sequence \\" + char_const[2] + " in character constant " + char_const)
+            return escapes[char_const[2]]
 
     def _convert_int(self, text: str):
         sign = 1
